@@ -54,6 +54,16 @@ PROPS = {
                      "effectiveness theorems (token_shared/node_shared) are stated for an immediately repeated request; stability of node entries under *other* requests is tied by correspondence (ghost ids vs addresses), not yet proved"],
         not_yet_proved=["node_entry_stable: a node-cache entry keeps answering its query after arbitrary other insertions (needs symmetry/transitivity of structural equality)"],
     ),
+    "C08": dict(
+        runs=runs([("probe:c08", "rustc")], [("probe:c08", "rustc")]),
+        rule="cases = one rustc probe each (all in one crate compiled once against the current source; diagnostics mapped back by line): every handle type "
+             "(node, token, element, resolved node/token/element, element ref) x {Send, Sync} x 8 (thorough 12) data types (thread-safe ones, Rc, Cell, RefCell, raw "
+             "pointer holder, Send-only, Sync-only); generic functions over an unconstrained / Send-only / Sync-only / Send+Sync data parameter asserting Send and Sync "
+             "(decides all instantiations inside the type checker); trees constructed with thread-safe and non-thread-safe resolvers and then moved / shared; green "
+             "node/token/element; distinct = distinct probe",
+        assumptions=["rustc's trait solver is the implementation here; the model covers exactly the extracted `unsafe impl` bounds and constructor bounds (and that no other unsafe marker impl exists in the syntax module)"],
+        not_yet_proved=[],
+    ),
     "C09": dict(
         runs=runs([("checkpoints", "release")],
                   [("checkpoints", "release"), ("checkpoints", "debug"), ("checkpoints", "lasso")]),
